@@ -59,6 +59,9 @@ mod misc {
     use rand::{RngExt, SeedableRng, rngs::StdRng};
     use std::{collections::HashMap, rc::Rc};
 
+    /// The largest number of elements of a shuffled sequence.
+    const MAX_SHUFFLE_ELEMENTS: i32 = 10_000;
+
     impl Story {
         /// Construct a `Story` out of a JSON string that was compiled with
         /// `inklecate`.
@@ -157,6 +160,15 @@ mod misc {
                     "Expected sequence count value for shuffle index".to_owned(),
                 ));
             };
+
+            // The number comes from the story document: the shuffle below
+            // divides by it and lists that many indices.
+            if num_elements <= 0 || num_elements > MAX_SHUFFLE_ELEMENTS {
+                return Err(StoryError::InvalidStoryState(format!(
+                    "Expected between 1 and {} elements in sequence for shuffle index, but saw {}",
+                    MAX_SHUFFLE_ELEMENTS, num_elements
+                )));
+            }
 
             let loop_index = seq_count / num_elements;
             let iteration_index = seq_count % num_elements;
